@@ -3087,7 +3087,11 @@ impl Server {
                 match timeout_str.parse::<f64>() {
                     Ok(t) if t < 0.0 => return Ok(RespFrame::error("ERR timeout is not a float or out of range")),
                     Ok(0.0) => None, // 0 means block forever
-                    Ok(t) => Some(std::time::Duration::from_secs_f64(t)),
+                    // NaN, infinity and values too large for a Duration are refused, not a panic
+                    Ok(t) => match std::time::Duration::try_from_secs_f64(t) {
+                        Ok(duration) => Some(duration),
+                        Err(_) => return Ok(RespFrame::error("ERR timeout is not a float or out of range")),
+                    },
                     Err(_) => return Ok(RespFrame::error("ERR timeout is not a float or out of range")),
                 }
             }
@@ -3116,7 +3120,8 @@ impl Server {
         }
         
         // No data available, register as blocked
-        let deadline = timeout.map(|t| Instant::now() + t);
+        // A timeout beyond what the clock can represent means "wait forever"
+        let deadline = timeout.and_then(|t| Instant::now().checked_add(t));
         self.blocking_manager.register_blocked(db_index, conn_id, keys.clone(), BlockingOp::BLPop, deadline)?;
         
         // Move connection to blocked state
@@ -3146,7 +3151,11 @@ impl Server {
                 match timeout_str.parse::<f64>() {
                     Ok(t) if t < 0.0 => return Ok(RespFrame::error("ERR timeout is not a float or out of range")),
                     Ok(0.0) => None, // 0 means block forever
-                    Ok(t) => Some(std::time::Duration::from_secs_f64(t)),
+                    // NaN, infinity and values too large for a Duration are refused, not a panic
+                    Ok(t) => match std::time::Duration::try_from_secs_f64(t) {
+                        Ok(duration) => Some(duration),
+                        Err(_) => return Ok(RespFrame::error("ERR timeout is not a float or out of range")),
+                    },
                     Err(_) => return Ok(RespFrame::error("ERR timeout is not a float or out of range")),
                 }
             }
@@ -3175,7 +3184,8 @@ impl Server {
         }
         
         // No data available, register as blocked
-        let deadline = timeout.map(|t| Instant::now() + t);
+        // A timeout beyond what the clock can represent means "wait forever"
+        let deadline = timeout.and_then(|t| Instant::now().checked_add(t));
         self.blocking_manager.register_blocked(db_index, conn_id, keys.clone(), BlockingOp::BRPop, deadline)?;
         
         // Move connection to blocked state
